@@ -450,7 +450,13 @@ class GLRParser(Parser):
             if shifted_head:
                 # If this token has already been shifted connect shifted head to
                 # this head.
-                parent = next(iter(shifted_head.parents.values())).clone_with_root(head)
+                parent = Parent(
+                    shifted_head,
+                    head,
+                    head.position,
+                    end_position,
+                    token=head.token_ahead,
+                )
                 if self.dynamic_filter and not self._call_dynamic_filter(
                     parent, head.state, to_state, SHIFT
                 ):
